@@ -120,7 +120,8 @@ def render(rng, content, hist):
             sep = rng.choice([' ', '  ', '\t', '     ', ' \t '])
             lead = rng.choice(['', ' ', '   '])
             out.append(lead + sep.join(content['frames'][f - 1][j - 1][0] for j in range(a, b + 1)))
-    return '\n'.join(out) + '\n'
+    # (a file need not end with a line terminator: the last data line may be the last thing in it)
+    return '\n'.join(out) + ('' if hist and hist[-1][0] == 'data' and rng.random() < 0.3 else '\n')
 
 
 def compare(LASRead, content, text):
